@@ -2,5 +2,6 @@ SPECIFICATION TraceSpec
 CONSTANTS FullLen = 0
           SparseLen = 0
           PairLen = 0
+          LongLens = {}
 POSTCONDITION TraceAccepted
 CHECK_DEADLOCK FALSE
